@@ -264,6 +264,8 @@ func cmdCheck(args []string) int {
 		reps := 1
 		if f.Kind == "RACE" {
 			reps = 30
+		} else if f.Threads > 1 {
+			reps = 15 // the counterexample includes a goroutine schedule, which a native run only meets by chance
 		}
 		ok := false
 		why := ""
@@ -284,7 +286,7 @@ func cmdCheck(args []string) int {
 			cf.status = "violation"
 			validated++
 			cf.replay = writeReplay(prop, nreplay, cf.spec, f, why)
-		} else if f.Kind == "HANG" || f.Kind == "RACE" {
+		} else if f.Kind == "HANG" || f.Kind == "RACE" || f.Threads > 1 {
 			// schedule-dependent findings cannot be forced natively: reported with the symbolic schedule
 			cf.status = "violation"
 			cf.replay = writeReplay(prop, nreplay, cf.spec, f, "schedule-dependent; native stress run did not reproduce: "+why)
